@@ -19,7 +19,7 @@ pub enum Ev {
     Temper,
 }
 
-#[derive(Debug)]
+#[derive(Debug, Clone)]
 pub struct Scripted {
     pub pos: usize,
     pub cfg: usize,
